@@ -693,3 +693,82 @@ Proof.
   - rewrite <- En, rev_involutive. destruct name; [congruence|reflexivity].
   - intros [E|Hin]; [congruence|contradiction].
 Qed.
+
+(** * 6. cantext.Append* only append; Marshal / MarshalCompact are compositions of such calls;
+       renderings are values *)
+
+(** the buffer returned is the buffer passed followed by a text that does not depend on it *)
+Theorem append_only_appends buf c r :
+  append_to buf c = Some r ->
+  exists t, append_to [] c = Some t /\ r = buf ++ t /\
+    forall rG rF rJ rD, render rG rF rJ rD r = render rG rF rJ rD buf ++ render rG rF rJ rD t.
+Proof.
+  unfold append_to. destruct (append_text c) as [t|]; [|discriminate].
+  intros E. inversion E; subst. exists t. split; [reflexivity|]. split; [reflexivity|].
+  intros. unfold render. apply flat_map_app.
+Qed.
+
+(** ... in particular its first [length buf] bytes are the caller's prefix, unchanged *)
+Theorem append_keeps_prefix buf c r rG rF rJ rD :
+  append_to buf c = Some r ->
+  firstn (length (render rG rF rJ rD buf)) (render rG rF rJ rD r) = render rG rF rJ rD buf.
+Proof.
+  intros E. destruct (append_only_appends _ _ _ E) as [t [_ [_ H]]]. rewrite H.
+  rewrite firstn_app, Nat.sub_diag, firstn_all. cbn [firstn]. apply app_nil_r.
+Qed.
+
+(** whether a call fails does not depend on the buffer; only AppendFrame can fail *)
+Theorem append_fails_iff buf c :
+  append_to buf c = None <->
+  exists f, c = CallFrame f /\ Can.FrameString.to_string (can_frame f) = Can.FrameString.S_panic.
+Proof.
+  unfold append_to. split.
+  - destruct c; cbn [append_text]; try discriminate.
+    destruct (Can.FrameString.to_string (can_frame f)) eqn:E; [discriminate|].
+    intros _. exists f. split; [reflexivity|exact E].
+  - intros [f [-> E]]. cbn [append_text]. rewrite E. reflexivity.
+Qed.
+
+Lemma marshal_loop_gen d : forall ss buf,
+  fold_left (fun buf s => match append_to (buf ++ [Lit t_nl_tab]) (CallSignal s d) with
+                          | Some b => b
+                          | None => buf
+                          end) ss buf =
+  buf ++ flat_map (fun s => Lit t_nl_tab :: text_signal s d) ss.
+Proof.
+  induction ss as [|s tl IH]; intros buf; cbn [fold_left flat_map].
+  - symmetry. apply app_nil_r.
+  - rewrite IH. unfold append_to. cbn [append_text]. rewrite <- !app_assoc. reflexivity.
+Qed.
+
+(** Marshal, written as the loop of Append calls over one buffer, is the closed form *)
+Theorem marshal_loop_spec m d : marshal_loop m d = text_multiline_data m d.
+Proof. unfold marshal_loop, text_multiline_data. rewrite marshal_loop_gen. reflexivity. Qed.
+
+Lemma marshal_compact_loop_gen d n : forall ss i buf,
+  snd (fold_left (fun (acc : nat * list segment) s =>
+                    let '(i, buf) := acc in
+                    let buf1 := match append_to buf (CallSignalCompact s d) with Some b => b | None => buf end in
+                    (S i, if Nat.eqb i (n - 1) then buf1 else buf1 ++ [Lit t_comma_sp]))
+                 ss (i, buf)) =
+  buf ++ loop_sep (fun s => text_compact_signal s d) [Lit t_comma_sp] n i ss.
+Proof.
+  induction ss as [|s tl IH]; intros i buf; cbn [fold_left loop_sep].
+  - cbn [snd]. symmetry. apply app_nil_r.
+  - assert (E : append_to buf (CallSignalCompact s d) = Some (buf ++ text_compact_signal s d)) by reflexivity.
+    rewrite E. destruct (Nat.eqb i (n - 1)); rewrite IH; cbn [app]; rewrite <- ?app_assoc; reflexivity.
+Qed.
+
+Theorem marshal_compact_loop_spec m d : marshal_compact_loop m d = text_compact_data m d.
+Proof.
+  unfold marshal_compact_loop, text_compact_data. rewrite marshal_compact_loop_gen.
+  rewrite <- app_assoc. reflexivity.
+Qed.
+
+(** Renderings are values: the k-th of the results obtained by rendering a sequence of
+    (message, payload) pairs is the rendering of the k-th pair alone, whatever was rendered
+    before or after it (stated for any renderer [f]; trivial in a functional model - that the Go
+    functions hand out memory no later call writes to is observed by the correspondence run) *)
+Theorem renderings_are_values {A B} (f : A -> B) (items : list A) k :
+  nth_error (map f items) k = option_map f (nth_error items k).
+Proof. apply nth_error_map. Qed.
